@@ -21,8 +21,34 @@ def gen_case(rng):
     S, D = c["schema"], c["frame"]
     S["dropInvalid"] = True
     c03.unique_labels(D)     # C11 quantifies over frames with a unique index
-    # bias towards row-level problems only: correct physical dtypes unless a coercion is requested
+    # a slice / chunk of a larger frame: a RangeIndex that does not start at 0 or has a step
+    if rng.random() < 0.3 and len(D["index"]) == 1 and D["index"][0]["dtype"] == "int64":
+        start, step = rng.choice([(1, 1), (3, 1), (0, 2), (2, 3), (5, 1)])
+        D["index"] = [dict(D["index"][0], vals=[A.vint(start + i * step) for i in range(D["nrows"])])]
+        c["rangeIndex"] = [start, step]
+    # one column failing nullability and uniqueness in the same validation
+    if rng.random() < 0.25 and D["nrows"] >= 3:
+        by = {col["name"]: col for col in D["cols"]}
+        cand = [sp for sp in S["columns"] if sp["regex"] is None and sp["name"] in by and sp["dtype"] == by[sp["name"]]["dtype"]
+                and A.can_null(sp["dtype"]) and not sp["coerce"] and not S["coerce"]]
+        if cand:
+            sp = rng.choice(cand)
+            sp["unique"], sp["nullable"] = True, False
+            vals = by[sp["name"]]["vals"]
+            i, j, k = rng.sample(range(D["nrows"]), 3)
+            vals[i] = A.NULL
+            if vals[j] == A.NULL:
+                vals[j] = rng.choice(A.POOL[sp["dtype"]])
+            vals[k] = vals[j]
     return c
+
+
+def real_frame(c):
+    df = A.frame_of(c["frame"])
+    if c.get("rangeIndex") and len(df):
+        start, step = c["rangeIndex"]
+        df.index = pd.RangeIndex(start, start + step * len(df), step, name=df.index.name)
+    return df
 
 
 def label_key(x):
@@ -39,7 +65,7 @@ def run_cases(rep, cases):
             rep.count("skipped:not-wellformed")
             continue
         S, D = c["schema"], c["frame"]
-        df = A.frame_of(D)
+        df = real_frame(c)
         # hidden position of every input row, recovered through the (unique) labels
         pos_of = {label_key(A.to_py(v)): i for i, v in enumerate(D["index"][0]["vals"])}
         kind, out = P.run_validate(A.schema_of(S), df.copy(), lazy=True)
@@ -187,6 +213,17 @@ def run_polars(rep, rng, n):
             if s["name"] in by and s["dtype"] is not None and by[s["name"]]["dtype"] != s["dtype"]:
                 s["dtype"] = by[s["name"]]["dtype"]
                 s["checks"] = []
+        if rng.random() < 0.3 and D["nrows"] >= 3 and D["cols"]:
+            cand = [sp for sp in S["columns"] if sp["name"] in by and sp["dtype"] == by[sp["name"]]["dtype"]]
+            if cand:
+                sp = rng.choice(cand)
+                sp["unique"], sp["nullable"] = True, False
+                vals = by[sp["name"]]["vals"]
+                i, j, k = rng.sample(range(D["nrows"]), 3)
+                vals[i] = A.NULL
+                if vals[j] == A.NULL:
+                    vals[j] = rng.choice(A.POOL[sp["dtype"]])
+                vals[k] = vals[j]
         if D["cols"]:
             cases.append(dict(c, backend="polars"))
     ans = run_driver("C11", [{"schema": c["schema"], "frame": c["frame"]} for c in cases])
